@@ -192,28 +192,44 @@ class Program:
         return [m for n, m in self.mods.items() if n != "_lowlevel_pypy"]
 
     # -- name / callee resolution ----------------------------------------
+    def _scope_bindings(self, scope: ast.AST) -> Dict[str, ast.AST]:
+        """name -> binding node for one function scope (parameters, nested defs, stores), computed once"""
+        cache = self.__dict__.setdefault("_bind_cache", {})
+        key = id(scope)
+        if key in cache:
+            return cache[key]
+        out: Dict[str, ast.AST] = {}
+        if not isinstance(scope, ast.Lambda):
+            # stores first, then defs, then parameters (later entries win: same precedence as before)
+            stores: Dict[str, ast.AST] = {}
+            defs: Dict[str, ast.AST] = {}
+            for n in walk_scope(scope):
+                if isinstance(n, (ast.FunctionDef, ast.AsyncFunctionDef, ast.ClassDef)):
+                    defs.setdefault(n.name, n)
+                elif isinstance(n, ast.Name) and isinstance(n.ctx, ast.Store):
+                    stores.setdefault(n.id, n)
+            out.update(stores)
+            out.update(defs)
+            for a in scope.args.args + scope.args.kwonlyargs + scope.args.posonlyargs:
+                out[a.arg] = a
+            if scope.args.vararg:
+                out[scope.args.vararg.arg] = scope.args.vararg
+            if scope.args.kwarg:
+                out[scope.args.kwarg.arg] = scope.args.kwarg
+        else:
+            for a in scope.args.args:
+                out[a.arg] = a
+        cache[key] = out
+        return out
+
     def _local_binding(self, mod: Mod, at: ast.AST, name: str) -> Optional[ast.AST]:
         """Find a def / assignment of *name* in the function scopes enclosing *at*
-        (innermost first), then at module level.  Returns the binding node."""
+        (innermost first).  Returns the binding node, None if the name is not local to any of them."""
         scope = mod.enclosing_def(at)
         while scope is not None:
-            if not isinstance(scope, ast.Lambda):
-                for a in scope.args.args + scope.args.kwonlyargs + scope.args.posonlyargs:
-                    if a.arg == name:
-                        return a
-                if scope.args.vararg and scope.args.vararg.arg == name:
-                    return scope.args.vararg
-                if scope.args.kwarg and scope.args.kwarg.arg == name:
-                    return scope.args.kwarg
-                for n in walk_scope(scope):
-                    if isinstance(n, (ast.FunctionDef, ast.AsyncFunctionDef, ast.ClassDef)) and n.name == name:
-                        return n
-                    if isinstance(n, ast.Name) and n.id == name and isinstance(n.ctx, ast.Store):
-                        return n
-            else:
-                for a in scope.args.args:
-                    if a.arg == name:
-                        return a
+            b = self._scope_bindings(scope).get(name)
+            if b is not None:
+                return b
             scope = mod.enclosing_def(scope)
         return None
 
